@@ -51,3 +51,21 @@ def fastcc (all irr : List Nat) (answers : List (List Nat)) : Res :=
     | a :: rest => loop irr rest a (diff all a) [⟨irr, false, a⟩]
 
 end FastccM
+
+/-!
+# What `find_blocked_reactions` does with the numbers it gets (src/cobra/flux_analysis/variability.py)
+
+The first solve and the FVA at fraction 0 are external; the function keeps, of the requested reactions, those whose flux in the first solution
+is below the cutoff in absolute value (only these go to the FVA) and, of these, those whose larger end of the range is below the cutoff in
+absolute value.
+-/
+namespace BlockedM
+
+def absR (q : Rat) : Rat := if q < 0 then -q else q
+
+def toFva (cut : Rat) (sol : Nat → Rat) (req : List Nat) : List Nat := req.filter (fun i => decide (absR (sol i) < cut))
+
+def blocked (cut : Rat) (sol : Nat → Rat) (rng : Nat → Rat × Rat) (req : List Nat) : List Nat :=
+  (toFva cut sol req).filter (fun i => decide (max (absR (rng i).1) (absR (rng i).2) < cut))
+
+end BlockedM
